@@ -26,7 +26,7 @@ NAME_TRIAGE: Dict[Tuple[str, str, str], Tuple[str, str, Tuple[str, ...]]] = {
     (S, "DoSimplify.is_quotient_remainder.check_quot", "str(div.rhs) == str(mod)"): (SANITISED, "literal constants (asserted Const): no names involved", ("C12",)),
     (S, "DoSimplify.is_quotient_remainder.check_quot", "str(div.lhs) == str(num)"): (ADVISORY, "numerators compared by printed text: same class as D12 (needs two Syms of one name inside one index expression; not reproduced)", ("C12",)),
     (S, "DoBindExpr", "str(c._node) == str(expr)"): (ADVISORY, "occurrences to bind selected by printed text; same class as D13 (not reproduced)", ("C01",)),
-    (L, "LoopIR_Compare.match_name", "n1.name() == n2.name()"): (ADVISORY, "join_loops compares bodies up to names: correct for variables bound inside the bodies, conflates free variables only under shadowing (source TODO; not reproduced)", ("C01",)),
+    (L, "LoopIR_Compare.match_name", "n1.name() == n2.name()"): (DEFECT, "join_loops compares the two loop bodies by printed names: two DIFFERENT buffers of one name (x and the staging buffer stage_mem also called x) make `x[i] = 1.0` and `x_1[i] = 1.0` equal and the loops are joined over the wrong buffer (D74)", ("C01",)),
     (S, "DoInsertNoopCall.get_typ_mem", "str(name) == buf_name"): (SANITISED, "resolves a user-supplied name in a nearest-first scope list", ("C01",)),
     (S, "DoStageMem.get_typ_mem", "str(name) == buf_name"): (SANITISED, "resolves a user-supplied name in a nearest-first scope list", ("C01",)),
     ("src/exo/API_scheduling.py", "ArgCursorA._cursor_call", "arg.name() == name"): (SANITISED, "user-supplied argument name", ("C01",)),
